@@ -8,6 +8,7 @@
    obs   ((op error classes) (idx_dur idx_len) ((id dur len) ...) (vtail_syn flush_syn vtail_cur flush_cur)
           (items hidden offset tail head headbytes)
           (per cut: ((ci pi) ((id c p) ...) reopen))  )
+     (-1 50) = the executable invariant inv_b fails on the final state although the index passes checkIndex
      reopen = (1 class) | (0 items hidden offset tail head headbytes flush ((id len) ...) (retrieve lo..hi)) *)
 From GV Require Import Lib.Sx Storage.FreezerTable.
 Local Open Scope N_scope.
@@ -78,7 +79,7 @@ Definition obs_cut (maxsz : N) (dec : list N -> option (list N)) (t : table) (c 
                       end in
   SL [ SL [snat (fst ci); snat (snd ci)];
        SL (map (fun kf => SL [sn (fst kf); snat (fst (cd (fst kf))); snat (snd (cd (fst kf)))]) (t_data t));
-       obs_reopen dec (crash_reopen t ci cd (c_m c)) ].
+       obs_reopen dec (crash_reopen true t ci cd (c_m c)) ].
 
 Definition C24_run (c : sx) : sx :=
   match c with
@@ -87,11 +88,11 @@ Definition C24_run (c : sx) : sx :=
       | Some maxsz, Some ops, Some cuts, Some cd =>
           let enc := enc_of cd in
           let dec := dec_of cd in
-          match init with
+          match init true with
           | Err e => SErr (Z.of_N e + 100)
           | Ok t0 =>
               let '(t, codes) := run maxsz enc t0 ops in
-              if negb (inv_b t) then SErr 50 else
+              if negb (inv_b t) && is_none (check_index (entries_of (fbytes (t_index t)))) then SErr 50 else
               SL [ SL (map sn codes);
                    SL [snat (fdur (t_index t)); snat (flen (t_index t))];
                    SL (map (fun kf => SL [sn (fst kf); snat (fdur (snd kf)); snat (flen (snd kf))]) (t_data t));
